@@ -270,13 +270,25 @@ class _BudgetExpired(BaseException):
     pass
 
 
+_IN_CALL = [False]
+
+
 def _on_timer(signum, frame):
-    raise _BudgetExpired()
+    # the one-shot timer is re-armed at the entry of every call and never disarmed (one syscall per call):
+    # an expiry between two calls belongs to nobody
+    if _IN_CALL[0]:
+        _IN_CALL[0] = False
+        raise _BudgetExpired()
 
 
 def arm():
     """install the CPU-time alarm in this (worker / replay) process"""
     signal.signal(signal.SIGVTALRM, _on_timer)
+
+
+def disarm():
+    _IN_CALL[0] = False
+    signal.setitimer(signal.ITIMER_VIRTUAL, 0)
 
 
 def call(key, f, *a):
@@ -287,15 +299,15 @@ def call(key, f, *a):
         return False, None
     try:
         signal.setitimer(signal.ITIMER_VIRTUAL, CALL_BUDGET_S)
-        try:
-            r = f(*a)
-        finally:
-            signal.setitimer(signal.ITIMER_VIRTUAL, 0)
+        _IN_CALL[0] = True
+        r = f(*a)
+        _IN_CALL[0] = False
         return True, r
     except _BudgetExpired:
         _EXPIRED.add(key)
         return False, NOTERM
     except Exception as e:        # noqa - any exception is an observation
+        _IN_CALL[0] = False
         return False, "raise:" + type(e).__name__
 
 
@@ -687,6 +699,7 @@ def _shard(args):
         stats["graphs"] += 1
         if sample is None and len(edges) >= n + 1:
             sample = {"family": fam, "n": n, "code": code, "order": order, "edges": [list(e) for e in edges]}
+    disarm()
     vs = [v for sig in sorted(kept) for v in kept[sig]]
     return dict(stats), vs, dict(nviol), sample
 
@@ -747,6 +760,8 @@ def run(ctx):
         "paths_expected_cc1": stats["paths_expected:cc1"],
         "paths_other_convention": stats["paths_other_convention"],
         "observed_find_path_differs_from_src_cc1": stats["observed_find_path!=from_src:cc1"],
+        "calls_skipped_after_budget_expiry": stats["calls_skipped_after_budget_expiry"],
+        "call_cpu_budget_s": CALL_BUDGET_S,
         "comparisons_per_algorithm": comparisons,
         "violating_comparisons_per_signature": dict(nviol),
         "graphs_per_family": per_family,
@@ -760,5 +775,6 @@ def run(ctx):
 def replay(case):
     arm()
     vs = check_graph(case["n"], [tuple(e) for e in case["edges"]], tuple(case.get("paths_cc", (0, 1))), want=case.get("algo"))
+    disarm()
     sig = case.get("sig")
     return [v for v in vs if sig is None or v["sig"] == sig]
